@@ -27,6 +27,17 @@ def optSlice (r : Option PySlice) (e : Err) : String :=
   | some s => answer (.ok (ofSlice s))
   | none => answer (.error e)
 
+/-- `((b c) (b c) ...)`: a list of `(block, column)` integer pairs -/
+private def intPairs? : SExp → Option (List (Int × Int))
+  | .list xs => xs.mapM fun
+      | .list [a, b] => do pure ((← int? a), (← int? b))
+      | _ => none
+  | _ => none
+
+/-- `((b (sl start stop step)) ...)` -/
+private def ofBlockSlices (l : List (Int × PySlice)) : SExp :=
+  .list (l.map fun (b, s) => .list [.atom (toString b), ofSlice s])
+
 def sliceOps : List SExp → Option String
   | [.atom "slice.indices", s, n] => do
       let s ← slice? s; let n ← nat? n
@@ -55,6 +66,11 @@ def sliceOps : List SExp → Option String
   | [.atom "gen.cols", l] => do
       let l ← ints? l
       pure (optSlice (Gen._cols_to_slice l) .lookup)
+  | [.atom "gen.contiguous", l] => do
+      let l ← intPairs? l
+      pure (match Gen.indices_to_contiguous_pairs l with
+        | some r => answer (.ok (ofBlockSlices r))
+        | none => answer (.error .lookup))
   | _ => none
 
 end SF.Drv
